@@ -111,7 +111,12 @@ def known_overflow(kind: str, text: Any, res: str) -> bool:
 def _crash_case(args: Tuple[int, int]) -> Case:
     seed, i = args
     rng = random.Random(seed * 50021 + i)
-    prog = P.gen_program(rng, max_blocks=3, max_stmts=5, max_depth=3) if i % 2 else P.gen_program(rng)
+    if i % 5 == 0:
+        prog = P.gen_crossblock_program(rng)        # folds in an earlier block feeding a fold in a later block
+    elif i % 2:
+        prog = P.gen_program(rng, max_blocks=3, max_stmts=5, max_depth=3)
+    else:
+        prog = P.gen_program(rng)
     texts = P.spell(prog, rng)
     _coq, js, result = CC.observe(texts)
     viol = None
